@@ -38,6 +38,8 @@ EXPLANATION += ' R3 no longer matches statements: the part of compute_overlap af
 TRUSTED = ["CPython ast parser", "closed-form Gaussian moment integrals (double factorials)", "uniqueness of the harmonic polynomial with given (l, |m|, y-parity) up to scale"]
 
 TOL = 1e-12
+EXPLANATION += ' (R8) compute_overlap segments its input with a convert_to_segmented that, evaluated on abstract shells, keeps every contraction in order, so rows / columns correspond to the basis functions of the given basis.'
+TECHNIQUE += '; accessor evaluation of the segmentation'
 
 
 def df(n):
@@ -452,6 +454,8 @@ def run(ctx):
         if not nskip:
             ctx.ok("R7", f"{len(stores)} block store(s): guarded only by the screening comparison / the one-basis symmetry flag; no continue/break at shell level; screening quantities assigned once", f"{om.relpath}:{inner_l.lineno}")
         ctx.floor("R7", len(stores), 1, "block stores")
+    _check_screened_quantity(ctx, co)
+    _check_translation_weights(ctx, co)
 
 
 def _seg(ctx):
@@ -538,3 +542,240 @@ def _check_overlap_tail(ctx, co, b0, b1):
                 ctx.violate("R3", f"{label}: the matrix returned after the shell loops is not the convention-converted one: {diff}", co, tail[-1], construct=f"overlap tail {label}: {diff}"[:200])
     except NotSymbolic as exc:
         raise AnalysisError(f"compute_overlap: the conversion after the shell loops is outside the evaluation whitelist: {exc}") from exc
+
+
+def _check_screened_quantity(ctx, co):
+    """R9: what is compared with the screening threshold is the bare pair exponential exp(-(a0 a1 / (a0 + a1)) R^2).
+
+    That number bounds the normalised overlap of the primitive pair from above (the normalised s-s overlap is
+    (2 sqrt(a0 a1) / (a0 + a1))^1.5 times it), so dropping pairs below 1e-15 is safe.  Any further factor folded into the
+    tested quantity -- (pi / (a0 + a1))^1.5 is tiny for tight primitives -- drops pairs whose normalised contribution is
+    far above the threshold.  Decided on the defining expression of the tested name, evaluated on symbols."""
+    from ..symarr import OPAQUE_ARGS, NotSymbolic, Sym, SymEval
+
+    ctx.rule("R9", "the quantity compared with the screening threshold is the bare pair exponential", "pairs of tight primitives on nearby centres are dropped although their normalised contribution is far above 1e-15")
+    pm = ctx.prog.parents(co)
+    ntest = 0
+    for n in co.own_nodes():
+        if not (isinstance(n, ast.Compare) and len(n.ops) == 1 and isinstance(n.left, ast.Name) and isinstance(n.comparators[0], ast.Constant) and isinstance(n.comparators[0].value, float) and 0 < n.comparators[0].value < 1e-3):
+            continue
+        var = n.left.id
+        ntest += 1
+        # the statement holding the comparison, and the assignments to `var` that precede it in the same block
+        st = n
+        while not isinstance(st, ast.stmt):
+            st = pm[id(st)]
+        block = None
+        par = pm.get(id(st))
+        for fld in ("body", "orelse", "finalbody"):
+            seq = getattr(par, fld, None)
+            if isinstance(seq, list) and st in seq:
+                block = seq
+        if block is None:
+            raise AnalysisError("compute_overlap: cannot locate the block of a screening comparison")
+        defs = [s_ for s_ in block[: block.index(st)] if isinstance(s_, (ast.Assign, ast.AugAssign)) and any(isinstance(t, ast.Name) and t.id == var for t in (s_.targets if isinstance(s_, ast.Assign) else [s_.target]))]
+        if not defs or not isinstance(defs[0], ast.Assign) and not any(isinstance(d_, ast.Assign) for d_ in defs):
+            raise AnalysisError(f"compute_overlap: `{var}` is not assigned in the block of its screening comparison")
+        # evaluate: every free name is an atom; divisions by local sums use the name of the sum
+        env = {}
+
+        class _E(SymEval):
+            def e_Name(self_, nd):
+                if nd.id in self_.env:
+                    return self_.env[nd.id]
+                return Sym.atom(nd.id)
+
+            def e_Attribute(self_, nd):
+                if isinstance(nd.value, ast.Name) and nd.value.id in ("np", "numpy", "math") and nd.attr in ("pi", "e"):
+                    return Sym.atom(nd.attr)
+                return super().e_Attribute(nd)
+
+            def e_BinOp(self_, nd):
+                if isinstance(nd.op, ast.Pow):
+                    try:
+                        return super().e_BinOp(nd)
+                    except (NotSymbolic, TypeError, ValueError):
+                        return Sym.atom("(" + ast.unparse(nd) + ")")  # a power the polynomial ring cannot hold: a factor
+                return super().e_BinOp(nd)
+
+        value = None
+        try:
+            for d_ in defs:
+                ev = _E(dict(env), None, {"np", "numpy", "math"})
+                if isinstance(d_, ast.Assign):
+                    value = ev.eval(_deep_div(d_.value))
+                else:
+                    value = ev.eval(ast.BinOp(left=ast.Name(id=var, ctx=ast.Load()), op=d_.op, right=_deep_div(d_.value)))
+                env[var] = value
+        except NotSymbolic as exc:
+            raise AnalysisError(f"compute_overlap: the screened quantity `{var}` is outside the symbolic whitelist: {exc}") from exc
+        value = Sym.const(value)
+        ok = False
+        why = f"`{var}` = {value!r}"
+        if len(value.terms) == 1:
+            (mono, coef), = value.terms.items()
+            if coef == 1 and len(mono) == 1 and mono[0][1] == 1 and mono[0][0] in OPAQUE_ARGS and OPAQUE_ARGS[mono[0][0]][0] == "exp":
+                arg = OPAQUE_ARGS[mono[0][0]][1]
+                if len(arg.terms) == 1 and next(iter(arg.terms.values())) < 0:
+                    ok = True
+                else:
+                    why = f"`{var}` = exp({arg!r}): the exponent is not a single negative product"
+        if ok:
+            ctx.ok("R9", f"`{var}` compared with {n.comparators[0].value:g} is the bare exponential {value!r}", f"{co.module.relpath}:{n.lineno}")
+        else:
+            ctx.violate("R9", f"the quantity compared with the screening threshold is not the bare pair exponential: {why}; a factor folded into it changes which pairs are dropped (the bound on the normalised overlap no longer holds)", co, n, construct=f"screened quantity {var}: not a bare exponential")
+    ctx.floor("R9", ntest, 2, "screening comparisons")
+
+
+def _deep_div(e):
+    """x / (a + b)  ->  x * INV_a_plus_b  (a fresh atom), so that the polynomial evaluator can represent it."""
+    import copy
+
+    class _T(ast.NodeTransformer):
+        def visit_BinOp(self, nd):
+            self.generic_visit(nd)
+            if isinstance(nd.op, ast.Div) and isinstance(nd.right, ast.BinOp) and isinstance(nd.right.op, (ast.Add, ast.Sub)):
+                return ast.BinOp(left=nd.left, op=ast.Mult(), right=ast.Name(id="INV(" + ast.unparse(nd.right) + ")", ctx=ast.Load()))
+            return nd
+
+    return ast.fix_missing_locations(_T().visit(copy.deepcopy(e)))
+
+
+def _check_translation_weights(ctx, co):
+    """R10: centre coordinates enter the integrals through differences only (translation invariance by construction).
+
+    Every value computed in compute_overlap gets a *translation weight* w: shifting all centres by t changes the value
+    by w t.  Centres have w = 1, exponents w = 0; sums, differences and products with scalars propagate w exactly
+    (rational arithmetic at a generic point for the exponents).  A product of two values with w != 0 is quadratic in
+    the absolute position -- analytically harmless, numerically a catastrophic cancellation far from the origin -- and
+    whatever reaches exp() or the one-dimensional kernels must have w = 0."""
+    from fractions import Fraction
+
+    ctx.rule("R10", "centres enter through differences only: nothing is quadratic in absolute positions, kernels get translation-invariant arguments", "for a molecule far from the origin the squared distance loses its digits: overlaps change when all centres are translated")
+    primes = iter([Fraction(3, 7), Fraction(5, 11), Fraction(13, 17), Fraction(19, 23), Fraction(29, 31), Fraction(37, 41), Fraction(43, 47)])
+    env = {}
+    problems = []
+    sinks = 0
+    UNKNOWN = ("?", None, None)
+
+    def ev(e):
+        """-> (kind, weight or None, scalar value or None)"""
+        if isinstance(e, ast.Constant) and isinstance(e.value, (int, float)) and not isinstance(e.value, bool):
+            return ("s", Fraction(0), Fraction(e.value).limit_denominator(10**6))
+        if isinstance(e, ast.Name):
+            return env.get(e.id, ("s", Fraction(0), None))
+        if isinstance(e, ast.Attribute):
+            if isinstance(e.value, ast.Name) and e.value.id in ("np", "numpy", "math") and e.attr == "pi":
+                return ("s", Fraction(0), Fraction(355, 113))
+            b = ev(e.value)
+            return (b[0], b[1], None)
+        if isinstance(e, ast.Subscript):
+            if isinstance(e.value, ast.Name) and e.value.id.startswith("atcoords"):
+                return ("v", Fraction(1), None)
+            b = ev(e.value)
+            return (b[0], b[1], None)
+        if isinstance(e, ast.UnaryOp) and isinstance(e.op, (ast.USub, ast.UAdd)):
+            b = ev(e.operand)
+            sgn = -1 if isinstance(e.op, ast.USub) else 1
+            return (b[0], None if b[1] is None else sgn * b[1], None if b[2] is None else sgn * b[2])
+        if isinstance(e, ast.BinOp):
+            l, r = ev(e.left), ev(e.right)
+            kind = "v" if "v" in (l[0], r[0]) else l[0]
+            if isinstance(e.op, (ast.Add, ast.Sub)):
+                sgn = 1 if isinstance(e.op, ast.Add) else -1
+                w = None if l[1] is None or r[1] is None else l[1] + sgn * r[1]
+                s = None if l[2] is None or r[2] is None else l[2] + sgn * r[2]
+                return (kind, w, s)
+            if isinstance(e.op, ast.Mult):
+                if l[1] is None or r[1] is None:
+                    return (kind, None, None)
+                if l[1] != 0 and r[1] != 0:
+                    problems.append((e, f"`{src_of(e)[:60]}` multiplies two quantities that both move with the centres"))
+                    return (kind, None, None)
+                if l[1] == 0 and r[1] == 0:
+                    return (kind, Fraction(0), None if l[2] is None or r[2] is None else l[2] * r[2])
+                sc, ot = (l, r) if l[1] == 0 else (r, l)
+                return (kind, None if sc[2] is None else sc[2] * ot[1], None)
+            if isinstance(e.op, ast.Div):
+                if r[1] is None or l[1] is None:
+                    return (kind, None, None)
+                if r[1] != 0:
+                    problems.append((e, f"`{src_of(e)[:60]}` divides by a quantity that moves with the centres"))
+                    return (kind, None, None)
+                if l[1] == 0:
+                    return (kind, Fraction(0), None if l[2] is None or r[2] is None or r[2] == 0 else l[2] / r[2])
+                return (kind, None if r[2] is None or r[2] == 0 else l[1] / r[2], None)
+            if isinstance(e.op, ast.Pow):
+                if l[1] is not None and l[1] != 0:
+                    problems.append((e, f"`{src_of(e)[:60]}` raises a quantity that moves with the centres to a power"))
+                    return (kind, None, None)
+                return (kind, l[1], None)
+            return UNKNOWN
+        if isinstance(e, ast.Call):
+            fn = src_of(e.func)
+            args = [ev(a) for a in e.args]
+            if fn in ("np.dot", "numpy.dot", "np.inner", "np.vdot") and len(args) == 2:
+                l, r = args
+                if l[1] is None or r[1] is None:
+                    return ("s", None, None)
+                if l[1] != 0 or r[1] != 0:
+                    problems.append((e, f"`{src_of(e)[:60]}` is a product with an absolute position ({'both factors move' if l[1] != 0 and r[1] != 0 else 'one factor moves'} with the centres)"))
+                    return ("s", None, None)
+                return ("s", Fraction(0), None)
+            if fn in ("np.linalg.norm", "np.sum", "np.square", "np.abs", "abs", "np.sqrt", "float", "np.array", "np.asarray") and args:
+                if fn in ("np.linalg.norm", "np.square") and args[0][1] not in (None, Fraction(0)):
+                    problems.append((e, f"`{src_of(e)[:60]}` takes the length / square of an absolute position"))
+                    return ("s", None, None)
+                return (args[0][0], args[0][1], None)
+            return ("s", Fraction(0), None) if all(a[1] == 0 for a in args) else ("s", None, None)
+        return UNKNOWN
+
+    def sink(e, what):
+        nonlocal sinks
+        sinks += 1
+        v = ev(e)
+        if v[1] is None:
+            if not problems:
+                raise AnalysisError(f"compute_overlap: the translation weight of `{src_of(e)[:60]}` ({what}) cannot be determined")
+        elif v[1] != 0:
+            problems.append((e, f"`{src_of(e)[:60]}` ({what}) changes by {v[1]} t when all centres are translated by t"))
+
+    def visit(stmts):
+        for st in stmts:
+            if isinstance(st, ast.Assign) and len(st.targets) == 1 and isinstance(st.targets[0], ast.Name):
+                for c in ast.walk(st.value):
+                    if isinstance(c, ast.Call):
+                        fn = src_of(c.func)
+                        if fn in ("np.exp", "math.exp", "numpy.exp"):
+                            sink(c.args[0], "argument of exp")
+                        elif fn == "compute_overlap_1d":
+                            sink(c.args[0], "first centre argument of the 1-D kernel")
+                            sink(c.args[1], "second centre argument of the 1-D kernel")
+                env[st.targets[0].id] = ev(st.value)
+            elif isinstance(st, ast.AugAssign) and isinstance(st.target, ast.Name):
+                env[st.target.id] = ev(ast.BinOp(left=ast.Name(id=st.target.id, ctx=ast.Load()), op=st.op, right=st.value))
+            elif isinstance(st, ast.For):
+                # loop variables over exponents are scalars at a generic rational point
+                tg = st.target.elts if isinstance(st.target, ast.Tuple) else [st.target]
+                for t in tg:
+                    if isinstance(t, ast.Name):
+                        expo = "exponents" in src_of(st.iter) and t is tg[-1]
+                        env[t.id] = ("s", Fraction(0), next(primes) if expo else None)
+                visit(st.body)
+            elif isinstance(st, (ast.If, ast.While)):
+                visit(st.body)
+                visit(st.orelse)
+            elif isinstance(st, ast.With):
+                visit(st.body)
+
+    visit(co.body)
+    if problems:
+        seen = set()
+        for node, msg in problems:
+            if msg in seen:
+                continue
+            seen.add(msg)
+            ctx.violate("R10", msg + ": the result is no longer independent of where the molecule sits (cancellation grows with the square of the distance from the origin)", co, node)
+    else:
+        ctx.ok("R10", f"{sinks} kernel / exponential arguments have translation weight 0; no product of two position-dependent quantities", f"{co.module.relpath}:{co.lineno}")
+    ctx.floor("R10", sinks, 3, "arguments of exp / the 1-D kernels")
